@@ -4,7 +4,7 @@
    (integer root bisection, rational root and rational power),
    Fmt/Flag.v (the exact flag through Value add/sub/mul/div/neg). *)
 From FendV Require Import Base.Prelude Fmt.Rat Fmt.Format Fmt.Lex Fmt.IntFmtProofs Fmt.LexProofs
-  Fmt.ExpansionProofs Fmt.RoundTripProofs Fmt.TruncProofs Fmt.Root Fmt.RootProofs Fmt.Flag Fmt.FlagProofs.
+  Fmt.ExpansionProofs Fmt.RoundTripProofs Fmt.TruncProofs Fmt.Root Fmt.RootProofs Fmt.Flag Fmt.FlagProofs Fmt.RealFlag Fmt.RealFlagProofs.
 From Coq Require Import QArith.
 Open Scope N_scope.
 
@@ -143,6 +143,33 @@ Theorem C03_flag_value : forall e v fl,
 Proof. exact flag_value_lemma. Qed.
 Print Assumptions C03_flag_value.
 
+(* THE REAL LAYER (rationals and symbolic multiples of pi, Exact<Real>
+   add/sub/mul/div/neg/pow under the Value flags; [piq] is whatever rational
+   Real::approximate uses for pi).  Full statement:
+     forall piq e p, rfeval piq e = Ok (p, true) -> exists s, sval e = Some s /\ sv_eq (sym p) s
+   ("flagged exact => the pattern IS the symbolic value in Q + Q.pi").
+   REFUTED on the faithful model and on the real code: floor / ceil / round of
+   a non-zero multiple of pi are computed from the rational stand-in for pi
+   and flagged exact (Complex::floor: Exact::new(.., true)); `floor(pi 10^25)`
+   prints 31415926535897932384626408 unmarked, the true value ends ...433.
+   Outside that class the statement holds. *)
+Theorem C03_real_flag_sound_refuted : forall piq,
+  exists e p, rfeval piq e = Ok (p, true) /\ sval e = None.
+Proof. exact real_flag_sound_refuted_lemma. Qed.
+Print Assumptions C03_real_flag_sound_refuted.
+
+Theorem C03_real_flag_sound_except_known : forall piq e p,
+  known_C03_intfn_of_pi piq e = false -> rfeval piq e = Ok (p, true) ->
+  exists s, sval e = Some s /\ sv_eq (sym p) s.
+Proof. exact real_flag_sound_lemma. Qed.
+Print Assumptions C03_real_flag_sound_except_known.
+
+(* anything built from an `approx.` operand stays marked at this layer too *)
+Theorem C03_real_flag_monotone : forall piq e p fl,
+  r_uses_approx e = true -> rfeval piq e = Ok (p, fl) -> fl = false.
+Proof. exact real_flag_monotone_lemma. Qed.
+Print Assumptions C03_real_flag_monotone.
+
 (* Documentation of the defect that was found and repaired: before 198ba44
    Value::add returned self whenever rhs.is_zero(), without consulting
    rhs.exact ([feval_old]); on that model the statement is refuted
@@ -164,6 +191,14 @@ Example C03_dp_inhabited :
   bigrat_format 10 (SDp 3) (BPlain 10) SepDot (mkrat true 22 7) = Ok ([45; 51; 46; 49; 52; 50], false)
   /\ bigrat_format 10 (SDp 3) (BPlain 10) SepDot (mkrat false 1 8) = Ok ([48; 46; 49; 50; 53], true)
   /\ bigrat_format 10 (SSf 2) (BPlain 10) SepDot (mkrat false 1234 1) = Ok ([49; 50; 48; 48], false).
+Proof. repeat split; vm_compute; reflexivity. Qed.
+
+Example C03_real_layer_inhabited :
+  rfeval (22 # 7) (RDiv (RMul (RLit 2) RPiC) (RMul (RLit 3) RPiC)) = Ok (RSimple (2 * 1 / (3 * 1)), true)
+  /\ rfeval (22 # 7) (RDiv (RLit 1) RPiC) = Ok (RSimple (1 / (1 * (22 # 7))), false)
+  /\ rfeval (22 # 7) (RMul RPiC RPiC) = Ok (RPi (1 * (1 * (22 # 7))), false)
+  /\ known_C03_intfn_of_pi (22 # 7) (RSub (RDiv (RLit 1) RPiC) (RDiv (RLit 1) RPiC)) = false
+  /\ known_C03_intfn_of_pi (22 # 7) (RFloor (RMul (RLit 100) RPiC)) = true.
 Proof. repeat split; vm_compute; reflexivity. Qed.
 
 Example C03_known_class_inhabited :
